@@ -211,6 +211,13 @@ def step (s : State) (op : List String) : List (State × List Ev) :=
   | ["setopt", _, "BEST-EFFORT", v] => [({ s with bestEffort := v == "true" }, [Ev.res "ok"])]
   | ["setopt", _, "TTL", n] => [({ s with ttl := natOf n }, [Ev.res "ok"])]
   | ["setopt", _, "WRITEQ-LEN", n] => [({ s with sendQLen := natOf n }, [Ev.res "ok"])]
+  | ["setopt", _, "SEND-DEADLINE", _] => [(s, [Ev.res "ok"])]
+  -- the send deadline of a blocked Send elapses (the harness sleeps across it): the call gives up; what it had taken
+  -- from its context (backtrace, pipe) is not put back — a survey / request received meanwhile stays the pending one
+  | ["expire", call] =>
+    match s.parkedSend.find? (fun x => x.call == natOf call) with
+    | none => []
+    | some ps => [({ s with parkedSend := s.parkedSend.filter (fun x => x.call != ps.call) }, [Ev.retErr ps.call "sendtimeout"])]
   | ["hold", p, v] => [({ s with pipes := modifyPipe s.pipes (natOf p) (fun x => { x with hold := v == "1" }) }, [])]
   | ["release", p, "ok"] =>
     match findPipe s.pipes (natOf p) with
